@@ -325,11 +325,12 @@ finally:
 """
 
 
-def child(args, timeout=15):
+def child(args, timeout=15, env=None):
     src = os.path.join(os.environ.get("VERIF_REPO", "/repo"), "src")
     try:
         p = subprocess.run(["timeout", "-s", "KILL", str(timeout), sys.executable, "-c", CHILD % {"src": src}] + args,
-                           capture_output=True, text=True, timeout=timeout + 5, check=False)
+                           capture_output=True, text=True, timeout=timeout + 5, check=False,
+                           env=None if env is None else dict(os.environ, **env))
     except subprocess.TimeoutExpired:
         return ["hang"]
     if p.returncode in (-9, 137):
@@ -381,6 +382,50 @@ def real_fs(ck, work, quick):
     if res != ["dir", "tmp2"] or sorted(os.listdir(dg)) != ["tmp1", "tmp1.bak", "tmp10", "tmp2", "tmp3", "tmp4"]:
         ck.violation(f"real file system with tmp1/ tmp3/ tmp4(file) tmp10/ tmp1.bak/: got {res}, expected tmp2; listing {sorted(os.listdir(dg))}",
                      {"case": "gaps2", "got": res})
+    # an environment full of variables that name temp / work / result directories (TMPDIR & co., and every ALL-CAPS
+    # text a changed tree introduced): without --tempdir the run still creates ./tmp1 and touches none of them
+    from boundaries import mined
+    de = os.path.join(work, "envdirs")
+    os.mkdir(de)
+    os.mkdir(os.path.join(de, "elsewhere"))
+    with open(os.path.join(de, "elsewhere", "original.txt"), "w") as f:
+        f.write("precious")
+    names = ["TMPDIR", "TEMP", "TMP", "TEMPDIR", "LITHIUM_TEMPDIR", "LITHIUM_TMP", "LITHIUM_TMPDIR", "LITHIUM_WORKDIR", "LITHIUM_OUTPUT"]
+    names += [t for t in mined()[1] if t.isupper() and t.replace("_", "").isalnum() and 3 <= len(t) <= 40]
+    res = child([de, "plain"], env={n: os.path.join(de, "elsewhere") for n in names})
+    ck.count("realfs")
+    ck.nontrivial(("realfs", "environment-variables"))
+    if res != ["dir", "tmp1"] or sorted(os.listdir(de)) != ["elsewhere", "tmp1"] or os.listdir(os.path.join(de, "elsewhere")) != ["original.txt"] \
+            or open(os.path.join(de, "elsewhere", "original.txt")).read() != "precious":
+        ck.violation(f"with {names} all set to an existing directory and no --tempdir: got {res}, expected the new directory ./tmp1; "
+                     f"the working directory holds {sorted(os.listdir(de))}, the other directory {sorted(os.listdir(os.path.join(de, 'elsewhere')))}",
+                     {"case": "environment-variables", "variables": names, "got": res})
+    # ... and through the command line proper (`python -m lithium test file`, no --tempdir), same environment
+    de2 = os.path.join(work, "envdirs-cli")
+    os.mkdir(de2)
+    os.mkdir(os.path.join(de2, "elsewhere"))
+    with open(os.path.join(de2, "elsewhere", "original.txt"), "w") as f:
+        f.write("precious")
+    with open(os.path.join(de2, "cond.py"), "w") as f:
+        f.write("def interesting(args, prefix):\n    return b'b' in open(args[-1], 'rb').read()\n")
+    with open(os.path.join(de2, "t.txt"), "w") as f:
+        f.write("a\nb\nc\n")
+    src_ = os.path.join(os.environ.get("VERIF_REPO", "/repo"), "src")
+    envv = dict(os.environ, PYTHONPATH=src_, **{n: os.path.join(de2, "elsewhere") for n in names})
+    try:
+        pr_ = subprocess.run(["timeout", "-s", "KILL", "60", sys.executable, "-m", "lithium", "cond.py", "t.txt"], cwd=de2, env=envv,
+                             capture_output=True, timeout=70, check=False)
+        rc_ = pr_.returncode
+    except subprocess.TimeoutExpired:
+        rc_ = "hang"
+    ck.count("realfs")
+    ck.nontrivial(("realfs", "environment-variables-cli"))
+    listing = sorted(os.listdir(de2))
+    if rc_ != 0 or listing != ["cond.py", "elsewhere", "t.txt", "tmp1"] or os.listdir(os.path.join(de2, "elsewhere")) != ["original.txt"] \
+            or open(os.path.join(de2, "elsewhere", "original.txt")).read() != "precious" or not os.listdir(os.path.join(de2, "tmp1")):
+        ck.violation(f"`python -m lithium cond.py t.txt` with {names} all set to an existing directory: status {rc_}, the working directory "
+                     f"holds {listing} (expected a new tmp1 with the intermediate files), the other directory "
+                     f"{sorted(os.listdir(os.path.join(de2, 'elsewhere')))}", {"case": "environment-variables-cli", "variables": names, "status": rc_})
     # names that are NOT tmpN but look like it - another letter case, a leading zero, a trailing blank or dot, a suffix, a
     # full-width digit: they take no number away (the file system here is case-sensitive); exact names do
     dl = os.path.join(work, "lookalikes")
